@@ -62,6 +62,12 @@ class Impl:
             ctx["_join_fired"] = True
         if act is not None:
             ctx["_activated_branches"] = [f"u{k}" for k in act]
+        # context keys evaluate_readiness must NOT depend on (the model has no such inputs): adversarial bookkeeping
+        # that disagrees with the durable upstream statuses, plus unrelated engine keys
+        if (len(ups) + thr + (1 if fired else 0)) % 2 == 0:
+            ctx["_completed_branches"] = [f"u{k}" for k in range(len(ups))]
+            ctx["_jump_count"] = 3
+            ctx["_buffered_signals"] = [{"signal_name": "x", "signal_data": {}}]
         st = self.Stage(id="idS", ref_id="S", context=ctx, join_type=self.join[join],
                         requisite_stage_ref_ids={f"u{k}" for k in range(len(ups))})
         st.join_threshold = thr  # set after construction: __post_init__ rejects negative N_OF_M thresholds
